@@ -50,14 +50,14 @@ def run(rep, work, tier, seed):
         leg_mutant(rep, work, SPEC, "mutant_swallow_exit_cancel",
                    cfg_text(dict(small, Bug="swallow_exit_cancel"), invariants=INVS), ["CancelNotLost"])
     for name, conf in confs:
-        leg_r(rep, work, SPEC, f"conf_{name}_{tier}", cfg_text(conf, invariants=INVS), ScopeLifeDriver)
+        leg_r(rep, work, SPEC, f"conf_{name}_{tier}", cfg_text(conf, invariants=INVS), ScopeLifeDriver, world=True)
     # sync scopes, updates and several nested blocks left by one Exception / BaseException up to a catch-all: Scopes.tla
     # (Try / Raise with the action property Restored), replayed on a single task
     from props.scopes_common import ScopesDriver
     sc = dict(NTasks=1, Types=["A", "B"], Vals=[1, 2], MaxDepth=3, MaxOps=4 if tier == "quick" else 5, SupKind="tiny", Bug="none")
     leg_m(rep, work, "Scopes", f"scopes_mc_{tier}", cfg_text(sc, spec="Spec", invariants=["TypeOK", "LexicalLookup"],
                                                               properties=["Restored"]), expect_actions=["Try", "Raise", "Leave"])
-    leg_r(rep, work, "Scopes", f"scopes_conf_{tier}", cfg_text(sc, invariants=["TypeOK"]), lambda: ScopesDriver(("A", "B")))
+    leg_r(rep, work, "Scopes", f"scopes_conf_{tier}", cfg_text(sc, invariants=["TypeOK"]), lambda: ScopesDriver(("A", "B")), world=True)
     rep.assumptions += [
         "spawned tasks obey cancellation at once; they end or fail only while the parent is in its body or waiting for them",
         "one external cancellation per run; a cancellation that arrives while asyncio's TaskGroup is already aborting "
